@@ -67,8 +67,14 @@ pub fn ask(d: &mut Decompressor, q: &Q) -> Ans {
     }
 }
 
+thread_local! {
+    /// diagnostics level of the handles opened by `open()` (stderr only; must not change answers)
+    pub static READER_VERBOSITY: std::cell::Cell<u32> = const { std::cell::Cell::new(0) };
+}
+
 fn open() -> Result<Decompressor, String> {
-    Decompressor::open(PATH, DecompressorConfig { verbosity: 0 }).map_err(|e| format!("{e:#}"))
+    let verbosity = READER_VERBOSITY.with(|v| v.get());
+    Decompressor::open(PATH, DecompressorConfig { verbosity }).map_err(|e| format!("{e:#}"))
 }
 
 /// The question alphabet for one archive: existing first/last-batch samples, unknown names,
@@ -186,8 +192,14 @@ pub fn run_history_eio(bytes: &Arc<Vec<u8>>, qs: &[Q], fresh: &[Result<Ans, Stri
         world.faults = FaultPlan { short_read_pct: short, eintr_read_pct: eintr, rng: seed, target: world.faults.target.clone(), ..Default::default() };
     }
     let qs2: Vec<Q> = hist.iter().map(|&i| qs[i].clone()).collect();
+    // a quarter of the histories run on a verbose handle (diagnostics on stderr only)
+    let hsum: usize = hist.iter().enumerate().map(|(i, &x)| (i + 1) * (x + 3)).sum();
+    let verbosity = match hsum % 8 { 0 => 1, 1 => 2, _ => 0 };
     let (res, world) = run_plain(world, move || {
-        let mut d = match open() {
+        READER_VERBOSITY.with(|v| v.set(verbosity));
+        let opened = open();
+        READER_VERBOSITY.with(|v| v.set(0));
+        let mut d = match opened {
             Ok(d) => d,
             Err(e) => return vec![Err(e)],
         };
